@@ -623,7 +623,7 @@ func (c *Ctx) c19Nils() {
 		return
 	}
 	for name, want := range map[string]bool{"p": true, "s": true, "ss": true, "m": true, "mm": true, "f": true, "a": true, "e": true,
-		"q": false, "s2": false, "m2": false, "g": false, "n": false, "z": false, "b": false, "x": false, "s4": false} {
+		"q": false, "s2": false, "m2": false, "g": false, "n": false, "z": false, "b": false, "x": false, "s3": true, "s4": false} {
 		c.Rep.Oracle["is-nil"]++
 		if got := vm.Get("main." + name).IsNil(); got != want {
 			c.Rep.Violate(Violation{Kind: "oracle", Cut: "is-nil", Input: "IsNil of main." + name, Impl: fmt.Sprint(got), Oracle: fmt.Sprint(want)})
@@ -818,6 +818,34 @@ func (c *Ctx) c19ResultsKept() {
 	}
 }
 
+// c19Probes: a host that asks for a name that is not defined gets nil (Get) or an error (Call) and defines nothing:
+// scripts compiled afterwards still see the builtins of that spelling (fix 65efe34); and a loader's prelude script
+// prints to the VM's output (fix eadf93a)
+func (c *Ctx) c19Probes() {
+	var out bytes.Buffer
+	var loadErr error
+	vm := goat.New(goat.WithStdout(&out), goat.WithLoaders(func(vm *goat.VM) {
+		_, loadErr = vm.Eval(fstest.MapFS{}, "prelude", "func Hook() int { return 5 }\nprintln(\"prelude\")")
+	}))
+	c.Rep.Oracle["host-probes"]++
+	if loadErr != nil {
+		c.Rep.Violate(Violation{Kind: "oracle", Cut: "host-probes", Input: "New(WithStdout(w), WithLoaders(f)) where f evaluates a prelude that prints", Impl: loadErr.Error(), Oracle: "the prelude prints to w"})
+	}
+	var probes []string
+	for _, name := range []string{"main.len", "main.append", "main.copy", "main.println", "main.onFrame", "builtin.nosuch"} {
+		probes = append(probes, fmt.Sprint(vm.Get(name).IsNil()))
+		_, err := vm.Call(name, 0)
+		probes = append(probes, fmt.Sprint(err != nil))
+	}
+	rets, err := vm.Eval(fstest.MapFS{}, "main", "xs := []int{1, 2}\nys := append(xs, 3)\nn := copy(ys, xs)\nprintln(len(ys), n)\nlen(xs) + Hook()")
+	c.Rep.Oracle["host-probes"]++
+	got := strings.Join(probes, " ") + " | " + c19Show(rets, err) + " | " + strings.ReplaceAll(out.String(), "\n", "/")
+	want := strings.TrimSpace(strings.Repeat("true true ", 6)) + " | ok 7 | prelude/3 2/"
+	if got != want {
+		c.Rep.Violate(Violation{Kind: "oracle", Cut: "host-probes", Input: "New(WithStdout, WithLoaders(prelude printing and defining Hook)); Get and Call of main.len, main.append, main.copy, main.println, main.onFrame, builtin.nosuch; then a script using len, append, copy, println, Hook", Impl: got, Oracle: want})
+	}
+}
+
 // c19ValueFormWithArgs: a native of the form func(vm) Value cannot read arguments, but registered with an arity it
 // still delivers its result (not the first argument; fix b462b86), and a wrong argument count is an error
 func (c *Ctx) c19ValueFormWithArgs() {
@@ -1000,6 +1028,7 @@ func runC19(c *Ctx) error {
 	c.c19ValueFormWithArgs()
 	c.c19TailAfterLiteral()
 	c.c19ResultsKept()
+	c.c19Probes()
 	c.c19RoundTrips(nr)
 	return nil
 }
